@@ -132,8 +132,9 @@ def load_known():
 
 
 def write_replay(prop, seed, idx, case, violation, digest):
-    os.makedirs(os.path.join(HERE, "replays"), exist_ok=True)
-    path = os.path.join(HERE, "replays", f"{prop.id}-{seed}-{idx}.json")
+    rdir = os.environ.get("VERIF_REPLAY_DIR", os.path.join(HERE, "replays"))
+    os.makedirs(rdir, exist_ok=True)
+    path = os.path.join(rdir, f"{prop.id}-{seed}-{idx}.json")
     json.dump({"property": prop.id, "seed": seed, "run": idx, "case": case, "violation": violation,
                "digest": digest, "repo_head": boot.repo_head()}, open(path, "w"), indent=1, default=str)
     return path
@@ -336,8 +337,9 @@ def run_batch(prop, tier, seed):
     if exhaustive_info is not None:
         evidence["coverage"]["exhaustive"] = exhaustive_info.pop("complete")
         evidence["coverage"]["exhaustive_part"] = exhaustive_info
-    os.makedirs(os.path.join(HERE, "evidence"), exist_ok=True)
-    json.dump(evidence, open(os.path.join(HERE, "evidence", f"{prop.id}.json"), "w"), indent=1, default=str)
+    edir = os.environ.get("VERIF_EVIDENCE_DIR", os.path.join(HERE, "evidence"))
+    os.makedirs(edir, exist_ok=True)
+    json.dump(evidence, open(os.path.join(edir, f"{prop.id}.json"), "w"), indent=1, default=str)
     print(f"runs={agg['n']} distinct_nontrivial={len(agg['nontrivial'])} digests={len(agg['digests'])} "
           f"states={len(agg['states'])} events={agg['events']} errors={n_err} timeouts={agg['timeouts']} "
           f"known_hits={known_hits} wall={wall:.1f}s exit={exit_code}", flush=True)
